@@ -823,3 +823,111 @@ func scenarioSendInFlight(withStacks bool) {
 	}
 	scenarioResult("sendinflight", sl, "", "")
 }
+
+// scenarioFullQueue — control calls under back-pressure: a per-peer queue that is exactly FULL at
+// the moment the peer is stopped.  Peer.Stop's nil sentinels are blocking channel sends, so they
+// wait for room and the routines always see them.
+//
+//	V1 outbound full: A's sender parked inside bind.Send (SendGate), the TUN keeps producing until
+//	   len(outbound) = cap = 1024 (the TUN reader blocks on the next push); UAPI remove A ->
+//	   Peer.Stop; gate released; remove must return, then Down and Close, all goroutines gone.
+//	V2 outbound full, then Down (waits for net.Lock behind the parked send), gate released.
+//	V3 inbound full: A's receiver parked inside tun.Write (WriteGate), 1024 more transport
+//	   packets from A; Down (closeBindLocked waits for RoutineReceiveIncoming, which waits for
+//	   room in the inbound queue), gate released; then Close.
+func scenarioFullQueue(withStacks bool) {
+	sl := &stepLog{}
+	for _, v := range []string{"outbound-remove", "outbound-down", "inbound-down"} {
+		a := cosim.NewPeer("A", "192.0.2.7:5555", "10.0.0.2/32")
+		w, err := cosim.NewWorld(cosim.Config{Up: true, TunBatch: 1, BindBatch: 1}, true, a)
+		if err != nil {
+			panic(err)
+		}
+		if _, _, _, err := w.RefInitiates(a, a.Addr, ref.Tai64n(time.Now())); err != nil {
+			panic(err)
+		}
+		inner := ref.Pad(ref.IPv4([4]byte{10, 0, 0, 2}, [4]byte{10, 9, 9, 9}, 40, 2))
+		w.Inject(a.Addr, a.Session().Next(inner))
+		w.Tun.TakeWritten()
+		pk := cosim.NoisePK(a.Pub)
+		entered := make(chan struct{})
+		release := make(chan struct{})
+		var armed atomic.Bool
+		armed.Store(true)
+		park := func() {
+			if armed.Swap(false) {
+				close(entered)
+				<-release
+			}
+		}
+		full := func() int {
+			st := w.Dev.VerifPeer(pk)
+			if strings.HasPrefix(v, "outbound") {
+				return st.OutboundLen
+			}
+			return st.InboundLen
+		}
+		if strings.HasPrefix(v, "outbound") {
+			w.Bind.SendGate = func([][]byte, netip.AddrPort) { park() }
+		} else {
+			w.Tun.WriteGate = func([][]byte) { park() }
+		}
+		feed := func(n int) {
+			for i := 0; i < n; i++ {
+				if strings.HasPrefix(v, "outbound") {
+					w.Tun.Inject(ref.IPv4([4]byte{10, 9, 9, 9}, [4]byte{10, 0, 0, 2}, 64, byte(i)))
+				} else {
+					w.Bind.Inject(sim.Dgram{From: a.Addr, Data: a.Session().Next(inner)})
+				}
+			}
+		}
+		feed(1)
+		select {
+		case <-entered:
+		case <-time.After(5 * time.Second):
+			panic("routine never reached the gate (" + v + ")")
+		}
+		feed(1100)
+		deadline := time.Now().Add(15 * time.Second)
+		for full() < 1024 && time.Now().Before(deadline) {
+			time.Sleep(2 * time.Millisecond)
+		}
+		sl.add("%s: routine parked in the gate, queue length %d of 1024", v, full())
+		if full() < 1024 {
+			panic("could not fill the queue")
+		}
+		var done []chan struct{}
+		d := make(chan struct{})
+		done = append(done, d)
+		go func() {
+			defer close(d)
+			switch v {
+			case "outbound-remove":
+				w.Dev.IpcSet("public_key=" + hexKey(a.Pub) + "\nremove=true\n")
+			default:
+				w.Dev.Down()
+			}
+			w.Dev.Down()
+			w.Dev.Close()
+		}()
+		time.Sleep(100 * time.Millisecond) // the call reaches Peer.Stop / the net lock
+		close(release)
+		if !waitAll(done, 10*time.Second) {
+			sl.add("%s: the control call did not return after the gate was released", v)
+			finishReplay("fullqueue", sl, done, time.Second, withStacks)
+		}
+		deadline = time.Now().Add(10 * time.Second)
+		for {
+			n, left := deviceCount()
+			if n == 0 {
+				break
+			}
+			if time.Now().After(deadline) {
+				scenarioResult("fullqueue", sl, "goroutine-leak-"+topDevice(left[0]), fmt.Sprintf("%s: %d device goroutines alive 10 s after Close returned", v, n))
+			}
+			time.Sleep(5 * time.Millisecond)
+		}
+		sl.add("%s: remove/Down, Down, Close returned; no device goroutine left", v)
+	}
+	scenarioResult("fullqueue", sl, "", "")
+}
